@@ -97,7 +97,7 @@ def run_proc(binary, job, seed, checks, tier, workdir, tag, timeout):
     env["VERIF_SHARDS"] = str(job.get("_shards", 1))
     if job.get("race"):
         env["GORACE"] = "halt_on_error=0 log_path=%s" % os.path.join(workdir, "race-" + tag)
-    cmd = [binary, "-test.run", job["run"], "-test.timeout", "%ds" % timeout, "-test.count=1",
+    cmd = [binary, "-test.run", job.get("run", "^$"), "-test.timeout", "%ds" % timeout, "-test.count=1",
            "-rapid.checks=%d" % checks, "-rapid.seed=%d" % seed, "-rapid.nofailfile",
            "-rapid.shrinktime=%s" % job.get("shrinktime", "20s")]
     if job.get("fuzz"):
@@ -178,11 +178,13 @@ def run_property(prop, tier):
         job["prop"] = prop
         if tier not in job.get("tiers", ("quick", "thorough")):
             continue
-        n = job["n"][tier]
+        n = job.get("n", {"quick": 0, "thorough": 0})[tier]
         shards = job.get("shards", {"quick": 1, "thorough": NCPU})[tier]
+        if job.get("fuzz"):
+            shards = 1
         timeout = job.get("timeout", {"quick": 300, "thorough": 3000})[tier]
         for s in range(shards):
-            name = job.get("name", job["run"].strip("^$"))
+            name = job.get("name", (job.get("run") or job.get("fuzz")).strip("^$"))
             seed = derive_seed(base_seed, name, s)
             tag = "%s-s%d" % (name.replace("/", "_"), s)
             j2 = dict(job)
@@ -228,6 +230,13 @@ def run_property(prop, tier):
         for sig, cnt in m["known"].items():
             known_hits[sig] = known_hits.get(sig, 0) + cnt
 
+    import re as _re
+    fuzz_execs = 0
+    for r in results:
+        if r["job"].get("fuzz"):
+            m = _re.findall(r"execs: (\d+)", r["out"])
+            if m:
+                fuzz_execs += int(m[-1])
     evaluations = sum(m["evaluations"] for m in merged.values())
     distinct = sum(len(m["hashes"]) for m in merged.values())
     samples = []
@@ -252,6 +261,7 @@ def run_property(prop, tier):
             "exhaustive": bool(merged) and all(m["exhaustive"] for m in merged.values()),
             "excluded_known": known_hits, "processes": len(results),
             "cases_per_sec": round(evaluations / wall, 1) if wall > 0 else 0,
+            "native_fuzz_execs": fuzz_execs,
         },
         "assumptions": spec.get("assumptions", []),
         "wall_s": round(wall, 2), "violations": len(violations),
@@ -266,6 +276,9 @@ def run_property(prop, tier):
     for r in results:
         tail = [l for l in r["out"].splitlines() if l.strip()][-1:] if r["rc"] == 0 else r["out"].splitlines()[-40:]
         print("[%s] rc=%d wall=%.1fs seed=%d %s" % (r["tag"], r["rc"], r["wall"], r["seed"], " | ".join(tail[:1]) if r["rc"] == 0 else ""))
+        if r["job"].get("fuzz") and r["rc"] == 0:
+            fl = [l for l in r["out"].splitlines() if "execs:" in l]
+            print("    " + (fl[-1] if fl else ""))
         if r["rc"] != 0:
             print("\n".join(tail))
     print("%s %s: evaluations=%d distinct_nontrivial=%d wall=%.1fs" % (prop, tier, evaluations, distinct, wall))
